@@ -28,7 +28,7 @@ type Delivery struct {
 // Obs is what one delivery did (projected: no SQL text, no messages, no times).
 type Obs struct {
 	Ops    []int    `json:"ops"`    // driver operation journal (kinds)
-	Err    int      `json:"err"`    // 0 none, 1 injected fault, 2 duplicate key, 3 refused by the fence, 4 other
+	Err    int      `json:"err"`    // 0 none, 1 injected fault, 2 duplicate key, 3 refused by the fence, 4 lock wait timeout, 5 panic, 6 diverged, 7 other
 	Ran    int      `json:"ran"`    // executions of the business callback
 	Status int64    `json:"status"` // committed fence status of the key after the delivery (0 = no row)
 	Biz    [3]int64 `json:"biz"`    // committed try/confirm/cancel effect counters of the key after the delivery
@@ -67,8 +67,12 @@ func classify(err error, sess *Session) (int, string) {
 		return 1, ""
 	case errors.As(err, &me) && me.Number == 1062:
 		return 2, ""
-	case errors.As(err, &me), sess.Misuse != "", errors.Is(err, sql.ErrTxDone), errors.Is(err, sql.ErrConnDone):
-		return 4, err.Error()
+	case sess.Misuse != "", errors.Is(err, sql.ErrTxDone), errors.Is(err, sql.ErrConnDone):
+		return 7, err.Error()
+	case errors.As(err, &me) && me.Number == 1205:
+		return 4, "" // lock wait timeout: the fence row is locked by a transaction an earlier delivery leaked
+	case errors.As(err, &me):
+		return 7, err.Error()
 	}
 	return 3, err.Error()
 }
@@ -129,7 +133,7 @@ func deliverDrv(sess *Session, phase int, key int) (errc int, detail string) {
 	}()
 	db, err := sql.Open("verif-fence-mysql", dsn)
 	if err != nil {
-		return 4, err.Error()
+		return 7, err.Error()
 	}
 	defer db.Close()
 	ctx := tm.InitSeataContext(context.Background())
@@ -173,7 +177,7 @@ func guarded(sess *Session, phase, key int, drv bool) (int, string) {
 	return ec, det
 }
 
-// drvDecided: input predicate fence.drivermode.decided-without-business
+// drvDecided: the fence settles the delivery by itself (half of fence.drivermode.decided-business-committed)
 func drvDecided(status int64, phase int) bool {
 	return (phase == 2 && status == 2) || (phase == 3 && (status == 0 || status == 3 || status == 4))
 }
@@ -184,12 +188,22 @@ func runSeq(st *Store, sid *int, hist []Delivery, pred *string) []Obs {
 		*sid++
 		sess := &Session{ID: *sid, Store: st, Fault: d.Fault, FaultedKind: -1}
 		xid, b := keyName(d.Key)
-		if d.Drv && drvDecided(st.Status(xid, b), d.Phase) && *pred == "" {
-			*pred = "fence.drivermode.decided-without-business"
-		}
+		decided := d.Drv && drvDecided(st.Status(xid, b), d.Phase)
 		ec, det := guarded(sess, d.Phase, d.Key, d.Drv)
-		if d.Drv && sess.FaultedKind == OpCommit && *pred == "" {
-			*pred = "fence.drivermode.fault-at-commit"
+		// the two listed input regions, evaluated on the run (the driver takes the model's evaluation and
+		// requires this one to agree): the failure hit the SECOND commit; or the fence decided the delivery
+		// by itself and the caller's business transaction got committed
+		ncommit := 0
+		for _, k := range sess.Trace {
+			if k == OpCommit {
+				ncommit++
+			}
+		}
+		if *pred == "" && d.Drv && sess.FaultedKind == OpCommit && sess.FaultedCommitNo == 2 {
+			*pred = "fence.drivermode.fault-at-fence-commit"
+		}
+		if *pred == "" && decided && ncommit >= 1 && !(sess.FaultedKind == OpCommit && sess.FaultedCommitNo == 1) {
+			*pred = "fence.drivermode.decided-business-committed"
 		}
 		if sess.Misuse != "" && det == "" {
 			det = sess.Misuse
@@ -408,7 +422,7 @@ func oracleStep(ks *keyState, phases []int, errs []int, rans []int, after Obs, f
 			return "rollback with no fence record did not record a suspension"
 		}
 	}
-	if len(phases) == 1 && phases[0] == 3 && before.status == 0 && faultFree && errs[0] != 0 {
+	if len(phases) == 1 && phases[0] == 3 && before.status == 0 && faultFree && errs[0] != 0 && errs[0] != 4 {
 		return "rollback with no fence record failed instead of recording a suspension"
 	}
 	ks.status, ks.biz = after.Status, after.Biz
@@ -428,7 +442,7 @@ func oracleCase(c *Case) string {
 	}
 	for i, d := range c.Hist {
 		o := c.Obs[i]
-		if o.Err >= 4 {
+		if o.Err >= 5 {
 			return fmt.Sprintf("delivery %d: unexpected outcome class %d: %s", i, o.Err, o.Detail)
 		}
 		if m := oracleStep(get(d.Key), []int{d.Phase}, []int{o.Err}, []int{o.Ran}, o, d.Fault < 0 || d.Fault >= len(o.Ops)); m != "" {
